@@ -38,4 +38,9 @@ def check(ctx: Ctx) -> str:
     from ..escrules import sandbox_format_keeps_type_rule
 
     sandbox_format_keeps_type_rule(ctx, "R6")
+    # filters that combine a safe string with plain arguments escape the plain side, so that
+    # output with autoescaping on is the escaped form of the output with it off (rule owned by C24)
+    from . import c24
+
+    ctx.run_imported("C24", {"R6"}, c24.check)
     return __doc__ or ""
